@@ -40,6 +40,20 @@ EXTERNAL_MODEL = {
     "realloc": dict(writes=[0], ret=[0], fresh=True),
     "free": dict(writes=[0], ret=[]),
 }
+# value-only LLVM intrinsics (byte swaps, bit counts, funnel shifts, min/max, saturating arithmetic ...)
+class _ValueIntrinsics(dict):
+    """EXTERNAL_MODEL lookups fall back to 'pure value operation' for llvm.* intrinsics that cannot touch memory"""
+    _MEM = ("llvm.memcpy", "llvm.memmove", "llvm.memset", "llvm.va_", "llvm.masked", "llvm.stackrestore", "llvm.eh.", "llvm.objc")
+
+    def get(self, k, d=None):
+        if k in self:
+            return dict.get(self, k)
+        if isinstance(k, str) and k.startswith("llvm.") and not k.startswith(self._MEM):
+            return dict(writes=[], ret=[])
+        return d
+
+
+EXTERNAL_MODEL = _ValueIntrinsics(EXTERNAL_MODEL)
 for _n in ("strdup", "strndup"):
     EXTERNAL_MODEL.setdefault(_n, dict(writes=[], ret=[], fresh=True))
 # value-only libm / libc routines: take and return scalars (or only read through their pointer arguments)
